@@ -6,6 +6,8 @@
 #include "TFEL/Material/IsotropicPlasticity.hxx"
 #include "TFEL/Material/Drucker1949YieldCriterion.hxx"
 #include "TFEL/Material/Cazacu2004IsotropicYieldCriterion.hxx"
+#include "TFEL/Material/OrthotropicPlasticity.hxx"
+#include "TFEL/Material/Cazacu2001YieldCriterion.hxx"
 #include "vsym/driver.hxx"
 using namespace tfel::math;
 using namespace tfel::material;
@@ -77,14 +79,47 @@ template <unsigned short N, class E> void c_cazacu2004(E& e) {
       for (unsigned short j = 0; j != n; ++j) e.ensure("second derivative(" + std::to_string(i) + "," + std::to_string(j) + ") = d normal / d sig", e.eq(dn2(i, j), e.d(n1[i], sig[j])));
   }
 }
+// Cazacu 2001 (orthotropic generalisation of Drucker): J2O, J3O with symbolic anisotropy coefficients
+template <unsigned short N, class E> void c_cazacu2001(E& e) {
+  using T = typename E::real;
+  constexpr unsigned short n = StensorDimeToSize<N>::value;
+  const auto sig = sym_stress<N>(e);
+  J2OCoefficients<stensor<N, T>> a;
+  J3OCoefficients<stensor<N, T>> b;
+  // a fixed generic anisotropy (exact rationals, pairwise distinct): with the 17 coefficients symbolic the second-derivative identities
+  // exceed the budget of the exact algebra; the stress state, c and seps stay symbolic
+  const int an[6] = {1, 1, 3, 2, 5, 3}, ad[6] = {1, 2, 2, 1, 4, 4};
+  const int bn[11] = {1, 2, 1, 3, 4, 1, 5, 2, 7, 3, 5}, bd[11] = {1, 3, 2, 4, 5, 3, 6, 1, 8, 5, 7};
+  for (unsigned short i = 0; i != 6; ++i) a[i] = T(an[i]) / T(ad[i]);
+  for (unsigned short i = 0; i != 11; ++i) b[i] = T(bn[i]) / T(bd[i]);
+  const T c = e.var("c"), seps = e.var("seps");
+  e.require(e.lt(T(0), seps));
+  const T J2O = computeJ2O(sig, a), J3O = computeJ3O(sig, b);
+  e.require(e.lt(seps * seps, J2O));
+  e.require(e.lt(T(0), J2O * J2O * J2O - c * J3O * J3O));
+  const T v = computeCazacu2001StressCriterion(sig, a, b, c);
+  const auto [v1, n1] = computeCazacu2001StressCriterionNormal(sig, a, b, c, seps);
+  const auto [v2, n2, dn2] = computeCazacu2001StressCriterionSecondDerivative(sig, a, b, c, seps);
+  e.ensure("seq^6 = 27 (J2O^3 - c J3O^2)", e.eq(v * v * v * v * v * v, T(27) * (J2O * J2O * J2O - c * J3O * J3O)));
+  e.ensure("Normal variant returns the same seq", e.eq(v1, v));
+  e.ensure("SecondDerivative variant returns the same seq", e.eq(v2, v));
+  for (unsigned short i = 0; i != n; ++i) e.ensure("SecondDerivative variant returns the same normal(" + std::to_string(i) + ")", e.eq(n2[i], n1[i]));
+  if constexpr (E::can_differentiate) {
+    for (unsigned short i = 0; i != n; ++i) e.ensure("normal(" + std::to_string(i) + ") = d seq / d sig", e.eq(n1[i], e.d(v, sig[i])));
+    for (unsigned short i = 0; i != n; ++i)
+      for (unsigned short j = 0; j != n; ++j) e.ensure("second derivative(" + std::to_string(i) + "," + std::to_string(j) + ") = d normal / d sig", e.eq(dn2(i, j), e.d(n1[i], sig[j])));
+  }
+}
 #define CN(NAME, FN, N) template <class E> void FN##N(E& e) { FN<N>(e); } VSYM_CONTRACT(NAME "/" #N "D", FN##N)
 CN("Drucker1949", c_drucker, 1)
 CN("Drucker1949", c_drucker, 2)
 CN("Drucker1949/homogeneity", c_drucker_homogeneity, 1)
 CN("Drucker1949/homogeneity", c_drucker_homogeneity, 2)
+CN("Cazacu2001", c_cazacu2001, 1)
 CN("Cazacu2004Isotropic", c_cazacu2004, 1)
 CN("Cazacu2004Isotropic", c_cazacu2004, 2)
 #ifdef VERIF_THOROUGH
+CN("Cazacu2001", c_cazacu2001, 2)
 CN("Drucker1949", c_drucker, 3)
 CN("Drucker1949/homogeneity", c_drucker_homogeneity, 3)
 CN("Cazacu2004Isotropic", c_cazacu2004, 3)
